@@ -1,0 +1,13 @@
+//go:build verif
+
+// Contracts for the verification harness in /verif (comment-only).
+
+package vecnet
+
+// ReadFrom fills every buffer completely, in order, from the reader, or
+// returns an error (never a short success). Its body is not yet verified
+// (C17: see DESIGN.md).
+//@ func (Buffers).ReadFrom
+//@   abstract
+//@   modifies arrays(byte), $consumed
+//@   ensures result0 >= 0
